@@ -31,8 +31,11 @@ func (ds *dataStore) save(fileName string) (err error) {
 		return
 	}
 
+	verifPoint("save-created", 0, 0)
+
 	// close f on exit and check for its returned error
 	defer func() {
+		verifPoint("save-closing", 0, 0)
 		if err := f.Close(); err != nil {
 			panic(err)
 		}
@@ -51,8 +54,10 @@ func (ds *dataStore) save(fileName string) (err error) {
 	if err = enc.Encode(ph); err != nil {
 		return
 	}
+	verifPoint("save-header", 0, 0)
 
 	// write the data
+	keyIndex := 0
 	for _, item := range ds.data.buckets {
 		if item == nil {
 			continue
@@ -99,6 +104,8 @@ func (ds *dataStore) save(fileName string) (err error) {
 		if err != nil {
 			return
 		}
+		verifPoint("save-key", 0, keyIndex)
+		keyIndex++
 	}
 
 	return
